@@ -84,4 +84,6 @@ SILENT_EDITS = [   # behaviour-preserving, no new violation
 
 def run(ctx):
     from ..rules import flatpar
-    return [pC20.rule_order(ctx), pC20.rule_once(ctx), pC20.rule_let_order(ctx), pC20.rule_drop(ctx), flatpar.rule_flat(ctx)]
+    from ..rules import sC20
+    return [pC20.rule_order(ctx), pC20.rule_once(ctx), pC20.rule_let_order(ctx), pC20.rule_drop(ctx), flatpar.rule_flat(ctx),
+            sC20.rule_paste(ctx), sC20.rule_stack(ctx)]
